@@ -49,8 +49,21 @@ func verifNewTimerEnv(fs storage.FileSystem, handles []recovery.CheckpointHandle
 	e.db = dkv.Open(dkv.DBOptions{FileSystem: fs, MemTableSize: 64, TargetFileSize: 128, L0TableNumCompactionTrigger: 2}, handles)
 	e.ks = partitioning.NewKeySpace(2, 1)
 	e.keys = verifTwoKeys(e.ks)
+	kgRange := e.ks.KeyGroupRanges()[0]
+	if verif.Param("SECOND", 0) == 1 {
+		// the second of two operators: its key-group range [2,4) does not start at 0
+		e.ks = partitioning.NewKeySpace(4, 2)
+		kgRange = e.ks.KeyGroupRanges()[1]
+		e.keys = make([][]byte, 2)
+		for c := 0; c < 256; c++ {
+			k := []byte{byte(c)}
+			if g := int(e.ks.KeyGroup(k)) - kgRange.Start; g >= 0 && g < 2 && e.keys[g] == nil {
+				e.keys[g] = k
+			}
+		}
+	}
 	e.senders = []string{"s1", "s2"}[:nSenders]
-	e.reg = NewTimerRegistry(NewTimerStore(e.db, e.ks, e.ks.KeyGroupRanges()[0], cache), e.senders)
+	e.reg = NewTimerRegistry(NewTimerStore(e.db, e.ks, kgRange, cache), e.senders)
 	e.wm = make([]int64, nSenders)
 	return e
 }
